@@ -1,0 +1,35 @@
+// Verification hooks for the shutdown-wait handshake (compiled only with
+// `--cfg slawlor_ractor_verif`).
+//
+// `point(name)` is called in the lock-free gaps of `ActorProperties::wait`
+// (`wait.after_notified`, `wait.after_status`), of `ActorProperties::notify_stop_listener`
+// (`notify.between`) and of `ActorCell::set_status` (`status.after_publish`). It does nothing
+// unless a harness installed a callback with `set_point_hook`; the callback may park the
+// calling thread to realise a chosen interleaving. No logic of the library lives here.
+
+//! Verification hooks for the shutdown-wait handshake (only with `--cfg slawlor_ractor_verif`).
+
+use std::sync::Arc;
+use std::sync::RwLock;
+
+type PointHook = Arc<dyn Fn(&'static str) + Send + Sync>;
+
+static POINT_HOOK: RwLock<Option<PointHook>> = RwLock::new(None);
+
+/// Install (or remove) the callback invoked at every `point`.
+pub fn set_point_hook(hook: Option<PointHook>) {
+    *POINT_HOOK
+        .write()
+        .unwrap_or_else(std::sync::PoisonError::into_inner) = hook;
+}
+
+/// A named schedule point. Does nothing unless a callback is installed.
+pub fn point(name: &'static str) {
+    let hook = POINT_HOOK
+        .read()
+        .unwrap_or_else(std::sync::PoisonError::into_inner)
+        .clone();
+    if let Some(hook) = hook {
+        hook(name);
+    }
+}
